@@ -121,8 +121,8 @@ def dict_get(st: State, r, k):
 
 def dict_wf(st: State, r):
     has, cnt, ord_, pos = st.read("$dhas", r), st.read("$dcnt", r), st.read("$dord", r), st.read("$dpos", r)
-    i = z3.Int(st.fresh_name("i"))
-    k = z3.Const(st.fresh_name("k"), Val)
+    i = z3.Int("wf!i")
+    k = z3.Const("wf!k", Val)
     return z3.And(
         cnt >= 0,
         z3.ForAll([i], z3.Implies(z3.And(0 <= i, i < cnt),
